@@ -233,6 +233,10 @@ type RunLog struct {
 	ModeAtCut config.ReplayMode // mode of the instance whose requests the cut falls into
 	Switched  bool              // an ancestor start (up to the cut) ran in another mode than the base run
 	BaseMode  config.ReplayMode
+	// Stopped: a clean-stop run — the Send context was cancelled at a logical instant in the middle
+	// of the traffic and the target drained everything the tool had sent.
+	Stopped  bool
+	StopSpec string
 }
 
 // Lineage returns the whole history this run extends.
@@ -590,5 +594,112 @@ func (e *Env) Restart(r *rand.Rand, p *RunLog, cut Cut, idleStarts int, modes []
 		}
 		l.Starts = append(l.Starts, st)
 	}
+	return l, ""
+}
+
+// StopSpec is the logical instant at which a clean-stop run cancels the Send context (the way
+// the tool is stopped): right after the target processed its AtRequest-th request of the
+// incremental phase, or right after the feeder handed out byte AtByte of the stream.
+type StopSpec struct {
+	AtRequest int64
+	AtByte    int64
+	Frags     int
+}
+
+func (s StopSpec) String() string {
+	if s.AtRequest > 0 {
+		return fmt.Sprintf("cancel at target request %d of the incremental phase (frags=%d)", s.AtRequest, s.Frags)
+	}
+	return fmt.Sprintf("cancel after the feeder handed out stream byte %d (frags=%d)", s.AtByte, s.Frags)
+}
+
+// RunStopped is a base run whose Send context is cancelled at spec's instant while stream data is
+// still being handed out.  It waits for Send to return and for the target to drain what the tool
+// had sent; the final state is what the next start finds.
+func (e *Env) RunStopped(r *rand.Rand, spec StopSpec) (*RunLog, string) {
+	bg := context.Background()
+	tgt := e.Factory(e.targetOptions())
+	defer tgt.Close()
+	l := &RunLog{FloorDone: -1, FloorCut: -1, BaseMode: e.C.Mode, ModeAtCut: e.C.Mode, Stopped: true, StopSpec: spec.String()}
+	st := Start{ReqFrom: 1, Initial: true, Traffic: true, Mode: e.C.Mode}
+	out, err := e.D.Open(tgt, e.C, e.C.Mode)
+	if err != nil {
+		return nil, "start-up bookkeeping: " + err.Error()
+	}
+	sp, err := out.StartPoint(bg, e.IDs)
+	if err != nil || sp.Offset >= 0 {
+		return nil, fmt.Sprintf("initial StartPoint: %+v %v", sp, err)
+	}
+	ss := &drive.Session{IDs: e.IDs, Out: out, Watch: e.Watch}
+	if err := ss.FullSync(bg, drive.EmptyRDB, e.C.Base); err != nil {
+		return nil, "initial full sync: " + err.Error()
+	}
+	sp, err = out.StartPoint(bg, e.IDs)
+	if err != nil || sp.Offset != e.C.Base || sp.RunId != e.RunID {
+		return nil, fmt.Sprintf("start point after the full sync: %+v %v (want offset %d)", sp, err, e.C.Base)
+	}
+	st.SP = sp
+	st.ReqDone = tgt.Seq()
+	l.First = st.ReqDone
+
+	ctx, cancel := context.WithCancel(bg)
+	defer cancel()
+	w := e.watch(tgt)
+	if spec.AtRequest > 0 {
+		at := l.First + spec.AtRequest
+		tgt.SetOnRequest(func(q *fakeredis.Req) { // under the target's lock; cancel never blocks
+			if q.Seq >= at {
+				cancel()
+			}
+		})
+	}
+	data := e.Stream.Bytes
+	var steps []drive.Step
+	if spec.AtByte > 0 && spec.AtByte < int64(len(data)) {
+		steps = append(plan(r, data[:spec.AtByte], spec.Frags, 0, 0), plan(r, data[spec.AtByte:], spec.Frags, 0, 0)...)
+	} else {
+		steps = plan(r, data, spec.Frags, 0, 0)
+	}
+	ar := ss.SendAof(ctx, sp.Offset, steps, false, 4096)
+	if spec.AtByte > 0 {
+		go func() {
+			for t0 := time.Now(); ar.F.Handed() < spec.AtByte && time.Since(t0) < e.Watch; {
+				time.Sleep(20 * time.Microsecond)
+			}
+			cancel()
+		}()
+	}
+	select {
+	case er := <-ar.Done:
+		l.SendErr = er
+	case <-w.unitDone:
+		// the whole stream was committed before the instant came: stop now
+		l.Completed = true
+		cancel()
+		select {
+		case er := <-ar.Done:
+			l.SendErr = er
+		case <-time.After(e.Watch):
+			ar.F.Abort()
+			return nil, "Send did not return after cancel"
+		}
+	case <-time.After(e.Watch):
+		cancel()
+		ar.F.Abort()
+		return nil, "watchdog: clean-stop run neither stopped nor finished"
+	}
+	ar.F.Abort()
+	tgt.SetOnRequest(nil)
+	if !tgt.WaitIdle(5 * time.Second) {
+		return nil, "target did not drain after the stop"
+	}
+	select {
+	case <-w.unitDone:
+		l.Completed = true
+	default:
+	}
+	st.SendEnd = tgt.Seq()
+	l.Starts = []Start{st}
+	l.capture(tgt)
 	return l, ""
 }
